@@ -319,29 +319,6 @@ impl World {
 pub struct QuerierWrapper { pub w: Ghost<World> }
 impl QuerierWrapper { pub open spec fn world(&self) -> World { self.w@ } }
 
-// ---- packages/haloswap/src/querier.rs: each body is one `querier.query(..)` JSON round trip (external): ASSUMED ----
-#[verifier::external_body] pub fn query_balance(querier: &QuerierWrapper, account_addr: Addr, denom: String) -> (r: StdResult<Uint128>)
-//%if A
-    ensures r is Ok, r->Ok_0.0 as nat == querier.world().bank_bal(account_addr.0@, denom@)
-//%else
-    ensures r is Ok ==> r->Ok_0.0 as nat == querier.world().bank_bal(account_addr.0@, denom@)
-//%endif
-    { unimplemented!() }
-#[verifier::external_body] pub fn query_token_balance(querier: &QuerierWrapper, contract_addr: Addr, account_addr: Addr) -> (r: StdResult<Uint128>)
-//%if A
-    ensures r is Ok, r->Ok_0.0 as nat == querier.world().tok_bal(contract_addr.0@, account_addr.0@)
-//%else
-    ensures r is Ok ==> r->Ok_0.0 as nat == querier.world().tok_bal(contract_addr.0@, account_addr.0@)
-//%endif
-    { unimplemented!() }
-#[verifier::external_body] pub fn query_token_info(querier: &QuerierWrapper, contract_addr: Addr) -> (r: StdResult<TokenInfoResponse>)
-//%if A
-    ensures r is Ok, r->Ok_0.total_supply.0 as nat == querier.world().tok_supply(contract_addr.0@)
-//%else
-    ensures r is Ok ==> r->Ok_0.total_supply.0 as nat == querier.world().tok_supply(contract_addr.0@)
-        && querier.world().tok_decimals.dom().contains(contract_addr.0@) && r->Ok_0.decimals == querier.world().tok_decimals[contract_addr.0@]
-//%endif
-    { unimplemented!() }
 
 // ---- std / small dependencies used by the pair ----
 impl Eq for Uint128 {}
@@ -391,10 +368,6 @@ impl IntegerSquareRoot for u128 {
 }
 
 // ---- factory-side queries and reply parsing: ASSUMED ----
-pub uninterp spec fn native_decimals_of(w: World, factory: Seq<char>, denom: Seq<char>) -> Option<u8>;   // the factory's NativeTokenDecimals query (None: unregistered)
-#[verifier::external_body] pub fn query_native_decimals(querier: &QuerierWrapper, factory_contract: Addr, denom: String) -> (r: StdResult<u8>)
-    ensures r is Ok ==> native_decimals_of(querier.world(), factory_contract.0@, denom@) == Some(r->Ok_0),
-        native_decimals_of(querier.world(), factory_contract.0@, denom@) is None ==> r is Err { unimplemented!() }
 pub struct Reply { pub id: u64, pub dummy: u8 }
 pub struct MsgInstantiateContractResponse { pub contract_address: String, pub data: Option<Binary> }
 pub struct ParseReplyError { pub dummy: u8 }
